@@ -435,6 +435,10 @@ func (ex *Exec) globalVal(st *State, g *ssa.Global) Val {
 	if v, ok := st.globs[g]; ok {
 		return v
 	}
+	if g.Pkg.Pkg.Path() == "io" && g.Name() == "EOF" {
+		ex.vc.Trust("io.EOF is never reassigned")
+		return Sc{ex.ioEOF(), SRef}
+	}
 	t := g.Type().Underlying().(*types.Pointer).Elem()
 	name := fmt.Sprintf("G%d_%s_%s", st.epoch, g.Pkg.Pkg.Name(), g.Name())
 	v := mkVal(t, name, nil, func(path string, s Sort) string {
